@@ -26,6 +26,7 @@ ACCESSOR_TYPES = {'as_secs': 'u64', 'as_u64': 'u64', 'as_u16': 'u16', 'as_u32': 
 def params_after(body, sql_prefix):
     """the params![...] (or rusqlite::params![...]) list following the SQL literal that starts with sql_prefix"""
     key = re.sub(r'\s+', ' ', sql_prefix)[:40]
+    body = re.sub(r'\\\n\s*', '', body)                      # string continuation lines inside the SQL literal
     body = re.sub(r'(?m)^\s*//[^\n]*$', '', body)            # full-line comments
     body = re.sub(r'(?<=[,;(\[{\s])//[^\n"]*$', '', body, flags=re.M)   # trailing comments (not inside string literals)
     flat = re.sub(r'\s+', ' ', body)
